@@ -169,7 +169,8 @@ def rmul(a, b):
 
 
 class DivisionObligation:
-    hook = None  # set by engine: hook(denominator R-value) -> None
+    hook = None       # set by engine: hook(denominator R-value) -> None
+    hook_cond = None  # set by engine: hook_cond(condition "denominator is non-zero") -> None
 
 
 def rdiv(a, b, *, guard=True):
@@ -290,11 +291,12 @@ def rmin(a, b):
 
 # ------------------------------------------------------------------------------ complex
 class CX:
-    __slots__ = ("re", "im")
+    __slots__ = ("re", "im", "nz")
 
     def __init__(self, re, im=0):
         self.re = re
         self.im = im
+        self.nz = None
 
     def is_real(self):
         return is_conc(self.im) and self.im == 0
@@ -339,6 +341,19 @@ def cabs2(a):
     return radd(rmul(a.re, a.re), rmul(a.im, a.im))
 
 
+NZ_HINT: dict = {}
+
+
+def cnonzero(b):
+    """b != 0 for a complex value, stated on the factors it is known to be a product of
+    (w**3 != 0  <=>  w != 0): keeps the division obligations of the contour formulas linear in size"""
+    bases = getattr(b, "nz", None) or [b]
+    out = True
+    for f in bases:
+        out = band(out, bor(rne(f.re, 0), rne(f.im, 0)))
+    return out
+
+
 def cdiv(a, b):
     if b.is_real():
         return CX(rdiv(a.re, b.re), rdiv(a.im, b.re, guard=False))
@@ -346,7 +361,12 @@ def cdiv(a, b):
         return CX(rdiv(a.im, b.im), rdiv(rneg(a.re), b.im, guard=False))
     den = cabs2(b)
     num = cmul(a, cconj(b))
-    return CX(rdiv(num.re, den), rdiv(num.im, den, guard=False))
+    nzc = cnonzero(b)
+    if isinstance(den, z3.ExprRef) and not isinstance(nzc, bool):
+        NZ_HINT[den.get_id()] = (den, nzc)  # |b|^2 != 0  <=>  every factor of b is non-zero
+    if DivisionObligation.hook_cond is not None:
+        DivisionObligation.hook_cond(nzc)
+    return CX(rdiv(num.re, den, guard=False), rdiv(num.im, den, guard=False))
 
 
 def cpow_int(a, n: int):
@@ -357,6 +377,8 @@ def cpow_int(a, n: int):
     r = a
     for _ in range(n - 1):
         r = cmul(r, a)
+    if n > 1:
+        r.nz = getattr(a, "nz", None) or [a]
     return r
 
 
